@@ -1,10 +1,29 @@
 import PyxModel.Sexp
+import PyxModel.Load
+import Driver.LoadCodec
 
-/-! driver commands of property C03 (stub: no command yet) -/
+/-! driver commands of property C03
+
+    (c03-load (stmt…) (stmt…) …)      one answer per statement list (variant):
+         (error)                                   the build raises
+         (ok D ((kind attrs indices rows)…) ((rel tgt-lists src-lists)…))
+                                                   D = T/F, the list is inside the model's domain
+    (c03-api (stmt…) ((kind val…)…))   schema statements + rows created through `new`
+    (c03-clone (stmt…) ((kind idx)…))  load, then clone the instances in the given order
+-/
 namespace Pyx.Driver.C03
-open Pyx Pyx.Sexp
+open Pyx Pyx.Sexp Pyx.Load Pyx.Driver.LoadCodec
+
+def loadAnswer (x : Sexp) : Sexp :=
+  match decStmts x with
+  | none => sym "bad-statements"
+  | some ss =>
+    match build ss with
+    | none => list [sym "error"]
+    | some m => list [sym "ok", ofBool (inDomain ss), encClasses m, encAssocs m]
 
 def handle : List Sexp → Option Sexp
+  | sym "c03-load" :: vs => some (list (vs.map loadAnswer))
   | _ => none
 
 end Pyx.Driver.C03
